@@ -27,8 +27,10 @@ import (
 // PerformHandshake performs a handshake between the given client and server connections, using the provided protocol
 // version. The handshake will use stream id 1, unless the client connection is in managed mode.
 func PerformHandshake(clientConn *CqlClientConnection, serverConn *CqlServerConnection, version primitive.ProtocolVersion, streamId int16) error {
-	clientChan := make(chan error)
-	serverChan := make(chan error)
+	// buffered: this function returns as soon as one side fails, and the other side's goroutine must still be able to
+	// deliver its result and end
+	clientChan := make(chan error, 1)
+	serverChan := make(chan error, 1)
 	go func() {
 		clientChan <- clientConn.InitiateHandshake(version, streamId)
 	}()
